@@ -2,3 +2,4 @@ import Driver.Gae
 import Driver.Tabular
 import Driver.Wrappers
 import Driver.Replay
+import Driver.Batching
